@@ -123,6 +123,10 @@ func (r *run) callStatic(fr *frame, st *State, callee *ssa.Function, args, bindi
 	switch key {
 	case "fmt.Errorf":
 		return []Val{r.errorf(fr, st, args, reach)}
+	case "fmt.Sprintf":
+		if v, ok := r.sprintf(args); ok {
+			return []Val{v}
+		}
 	case "errors.New":
 		e := r.fresh("err", "Err")
 		r.assume("true", fmt.Sprintf("(< 0 %s)", e))
@@ -802,4 +806,42 @@ func (r *run) reflectDispatch(fr *frame, st *State, name string, lhs, rhs Val, r
 	}
 	r.assumed["reflection in system/cmp.go partially evaluated per dynamic type with go/types method sets (reflect.Value.Call = direct call)"] = true
 	return outv
+}
+
+// sprintf models fmt.Sprintf for the formats "%v", "%s", "%d" with one operand that is a
+// string or an integer (boxed in the variadic []any): the operand itself / its decimal
+// rendering. Every other use is an unconstrained string.
+func (r *run) sprintf(args []Val) (Val, bool) {
+	if len(args) != 2 || !strings.HasPrefix(args[0].Term, "\"") {
+		return Val{}, false
+	}
+	format, ok := smtUnescape(args[0].Term)
+	if !ok || (format != "%v" && format != "%s" && format != "%d") {
+		return Val{}, false
+	}
+	n, known := r.knownLen(args[1])
+	if !known || n != 1 {
+		return Val{}, false
+	}
+	m := strings.TrimPrefix(args[1].Sort, "Slice_")
+	el := fmt.Sprintf("(select (arr_%s %s) 0)", m, args[1].Term)
+	var strCases, intCases []string
+	for _, t := range r.eng.Sorts.universe {
+		switch r.eng.Sorts.SortOf(t) {
+		case "String":
+			strCases = append(strCases, fmt.Sprintf("(ite %s %s", r.eng.Sorts.IsType(t, el), r.eng.Sorts.Unbox(t, el)))
+		case "Int":
+			if _, isB := t.Underlying().(*types.Basic); isB && format != "%s" {
+				intCases = append(intCases, fmt.Sprintf("(ite %s (int_to_str %s)", r.eng.Sorts.IsType(t, el), r.eng.Sorts.Unbox(t, el)))
+			}
+		}
+	}
+	other := r.fresh("sprintf", "String")
+	term := other
+	all := append(strCases, intCases...)
+	for i := len(all) - 1; i >= 0; i-- {
+		term = all[i] + " " + term + ")"
+	}
+	r.assumed["assumed contract: fmt.Sprintf(\"%v\"|\"%s\"|\"%d\", x) of a string is the string, of an integer its decimal rendering"] = true
+	return Val{Term: term, Sort: "String", Type: types.Typ[types.String]}, true
 }
